@@ -114,6 +114,13 @@ fn str_case(_t: Tier) -> impl Strategy<Value = StrCase> {
         3 => (wellformed_strategy(), mutations()).prop_map(|(s, m)| mutate(s, m)),
         // mutated date-time texts
         2 => (datetime_text(), mutations()).prop_map(|(s, m)| mutate(s, m)),
+        // date-time texts around the limits of the nanosecond unit (1677-09-21 00:12:43.145224192 ..
+        // 2262-04-11 23:47:16.854775807), where representability changes within a day
+        2 => (any::<bool>(), -90_000i64..90_000, 0u32..1_000_000_000, 0usize..11, mutations()).prop_map(|(hi, off, ns, f, m)| {
+            let base = if hi { 9_223_372_036i64 } else { -9_223_372_037i64 };
+            let nd = chrono::DateTime::from_timestamp(base + off, ns).unwrap().naive_utc();
+            mutate(nd.format(FORMATS[f]).to_string(), if ns % 3 == 0 { m } else { vec![] })
+        }),
         // overflowing numbers with valid units
         1 => (prop_oneof![Just(i64::MAX as i128), Just(i64::MAX as i128 + 1), Just(i64::MIN as i128), Just(u64::MAX as i128), Just(9_223_372_036_854_775i128), Just(i32::MAX as i128 + 1), Just(200_000_000_000i128)], 0usize..10).prop_map(|(n, u)| format!("{}{}", n, UNITS[u])),
     ]
@@ -206,10 +213,13 @@ struct RtCase {
     d: u32,
     sod: i64,
     sub_ns: i64,
+    /// nanosecond unit only: > 0 => i64::MAX - (edge - 1); < 0 => i64::MIN + 1 + (-edge - 1); 0 => ordinary
+    #[serde(default)]
+    edge: i64,
 }
 
 fn rt_case(_t: Tier) -> impl Strategy<Value = RtCase> {
-    (0usize..4, prop_oneof![3 => 1i64..=9999, 2 => 1900i64..=2100], 1u32..=12, 1u32..=31, prop_oneof![1 => Just(0i64), 4 => 0i64..86400], prop_oneof![1 => Just(0i64), 3 => 0i64..1_000_000_000]).prop_map(|(u, y, mo, d, sod, sub_ns)| RtCase { u, y, mo, d, sod, sub_ns })
+    (0usize..4, prop_oneof![3 => 1i64..=9999, 2 => 1900i64..=2100], 1u32..=12, 1u32..=31, prop_oneof![1 => Just(0i64), 4 => 0i64..86400], prop_oneof![1 => Just(0i64), 3 => 0i64..1_000_000_000], prop_oneof![8 => Just(0i64), 1 => 1i64..200_000_000_000_000, 1 => -200_000_000_000_000i64..0]).prop_map(|(u, y, mo, d, sod, sub_ns, edge)| RtCase { u, y, mo, d, sod, sub_ns, edge })
 }
 
 fn rt_unit<U: TimeUnitTrait>(c: &RtCase, ns_per: i64, obs: &mut Obs) -> CheckResult
@@ -220,7 +230,22 @@ where
     let y = if ns_per == 1 { 1678 + (c.y - 1) % (2261 - 1678 + 1) } else { c.y };
     let d = c.d.min(civil::days_in_month(y, c.mo));
     let secs = civil::days_from_civil(y, c.mo, d) * 86400 + c.sod;
-    let ts = (secs as i128 * 1_000_000_000 + c.sub_ns as i128).div_euclid(ns_per as i128) as i64;
+    let mut ts = (secs as i128 * 1_000_000_000 + c.sub_ns as i128).div_euclid(ns_per as i128) as i64;
+    if ns_per == 1 && c.edge != 0 {
+        // instants at the very ends of the nanosecond range
+        ts = if c.edge > 0 { i64::MAX - (c.edge - 1) } else { i64::MIN + 1 + (-c.edge - 1) };
+        obs.class("ns_range_edge");
+        let dt = DateTime::<U>::new(ts);
+        let text = dt.strftime(None);
+        return match DateTime::<U>::parse(&text, None) {
+            Ok(back) if back.0 == ts => {
+                obs.set_nontrivial(true);
+                Ok(())
+            },
+            Ok(back) => fail("roundtrip:ns-edge:value", format!("strftime({}) = {:?} parsed back to {}", ts, text, back.0)),
+            Err(e) => fail("roundtrip:ns-edge:rejected", format!("strftime({}) = {:?} rejected: {}", ts, text, e)),
+        };
+    }
     let dt = DateTime::<U>::new(ts);
     let text = dt.strftime(None);
     for (how, r) in [("parse(None)", DateTime::<U>::parse(&text, None)), ("from_str", text.parse::<DateTime<U>>()), ("parse(default fmt)", DateTime::<U>::parse(&text, Some("%Y-%m-%d %H:%M:%S.%f")))] {
